@@ -1,5 +1,9 @@
 import Abyss.Props.C02
 import Abyss.Props.C03
+import Abyss.Props.GenCorollaries
+#print axioms Abyss.C02_generated_reopen
+#print axioms Abyss.openMap_reopen
+#print axioms Abyss.openMap_create
 #print axioms Abyss.C02_reopen
 #print axioms Abyss.parse_render
 #print axioms Abyss.parseRecFile_key
